@@ -458,6 +458,44 @@ def check_wire(repo: Repo, rep: Report):
             rep.bad("C15.wire-format", q, f"shape-mismatch:{oc.opname}", f"{c.name} encodes its argument as {got} but the `{arg}` descriptor of {oc.opname} reads {want}: the bytes do not disassemble back to this opcode with this argument", c.module.relpath, c.node.lineno, what=f"{oc.opname}: {got} vs {want}")
 
 
+def check_length_units(repo: Repo, rep: Report):
+    """A length-prefixed constant class must bound, in validate, the byte length of what encode_body will write
+    (by delegating to DynamicLength.validate, which measures len(cls(obj).encode_body()))."""
+    dl = repo.cls("fickling.fickle.DynamicLength")
+    base_v = dl.method("validate")
+    if base_v is None or "encode_body()" not in ast.unparse(base_v.node):
+        raise AnalysisError("DynamicLength.validate no longer measures len(cls(obj).encode_body())")
+    for c, pr in constant_registry(repo):
+        if not repo.is_subclass(c, dl.qualname):
+            continue
+        v = repo.find_method(c, "validate")
+        chain_ok = False
+        cur_owner = None
+        f = v
+        depth = 0
+        while f is not None and depth < 6:
+            if f.cls is dl:
+                chain_ok = True
+                break
+            rets = [n.value for n in body_walk(f.node) if isinstance(n, ast.Return) and n.value is not None]
+            deleg = [r for r in rets if isinstance(r, ast.Call) and isinstance(r.func, ast.Attribute) and r.func.attr == "validate" and isinstance(r.func.value, ast.Call) and dotted(r.func.value.func) == "super"]
+            if not rets or len(deleg) != len(rets):
+                break
+            # next validate in the MRO after f.cls
+            mro = repo.mro_classes(c)
+            nxt = None
+            for k in mro[mro.index(f.cls) + 1:]:
+                if k.method("validate") is not None:
+                    nxt = k.method("validate")
+                    break
+            f = nxt
+            depth += 1
+        if chain_ok:
+            rep.ok("C15.length-units", c.qualname + ".validate", "bounds the byte length of the encoded body (delegates to DynamicLength.validate on every accepting path)", f"{c.module.relpath}:{c.node.lineno}")
+        else:
+            rep.bad("C15.length-units", c.qualname + ".validate", "length-not-of-encoded-body", f"{c.name}.validate ({v.qualname}) accepts a value without bounding the byte length of what encode_body writes (it does not delegate to DynamicLength.validate on every accepting path): a value whose encoding exceeds the {fold_attr(repo, c, 'length_bytes')}-byte length prefix is accepted by ConstantOpcode.new and only fails later, while the pickle is being serialised", c.module.relpath, c.node.lineno)
+
+
 def check_text_escape(repo: Repo, rep: Report):
     """UNICODE's text encoder must escape code points the way the raw-unicode-escape codec decodes them."""
     f = repo.lookup("fickling.fickle.raw_unicode_escape")
@@ -498,9 +536,11 @@ def run(rep: Report, tier: str):
     rep.rule("C15.capture", "every class that can win ConstantOpcode.new for an input kind decodes to that kind", 5)
     rep.rule("C15.range", "admitted integer ranges fit the struct format", 4)
     rep.rule("C15.wire-format", "encoder shape agrees with the pickletools argument descriptor, or the class refuses", 55)
+    rep.rule("C15.length-units", "length-prefixed constant classes bound the byte length of the encoded body in validate", 6)
     rep.rule("C15.text-escape", "the UNICODE text encoder escapes code points (what the reader decodes), not UTF-8 bytes", 1)
     rep.assume("pickletools argument descriptors and stack_after kinds are the specification of what the standard disassembler/unpickler reads")
     check_capture(repo, rep)
     check_range(repo, rep)
     check_wire(repo, rep)
+    check_length_units(repo, rep)
     check_text_escape(repo, rep)
